@@ -38,6 +38,7 @@ type world struct {
 	disk     []string          // queued records written to the on-disk queue by shut-down pipeline sets, not yet taken over
 	markerA  bool
 	markerB  bool
+	cReg     bool // connection C has registered its sink (three-connection scenarios: A and B are slow closers until then)
 	doneA    bool
 	doneB    bool
 	doneC    bool
@@ -318,6 +319,10 @@ func drive(w *world) explore.Verdict {
 		w.markerA = true
 		w.ev("A: socket closed, client number %d is free", numA)
 		vsched.Yield("connA.socket-closed")
+		if p.three {
+			// a slow closer: still flushing when the number has been handed out twice more
+			vsched.WaitUntil("connA.slow-close", vsched.VNow().Add(0), func() bool { return w.cReg })
+		}
 		accept("A", s, "a2")
 		s.Tick()
 		s.Close()
@@ -334,6 +339,7 @@ func drive(w *world) explore.Verdict {
 			w.markerB = true
 			w.ev("B: socket closed, client number %d is free again", numB)
 			vsched.Yield("connB.socket-closed")
+			vsched.WaitUntil("connB.slow-close", vsched.VNow().Add(0), func() bool { return w.cReg })
 		}
 		accept("B", s, "b2")
 		s.Tick()
@@ -345,6 +351,7 @@ func drive(w *world) explore.Verdict {
 		vsched.Go("connC", func() {
 			vsched.WaitUntil("connC.wait-fd-free", vsched.VNow().Add(0), func() bool { return w.markerB })
 			s := R.NewSink("C", numA)
+			w.cReg = true
 			accept("C", s, "c1")
 			s.Tick()
 			s.Close()
